@@ -1,5 +1,7 @@
 // Engine part 4: property monitors that plug into the explorer.
 #pragma once
+#include <sys/wait.h>
+#include <unistd.h>
 #include "engine/refmodel.hpp"
 
 namespace vt {
@@ -208,6 +210,40 @@ template <typename FSM> void Explorer<FSM>::afterExec(const Node& node, Exec& x)
 #endif
 #if VT_LOG
 	if (props & P_C16) checkC16(node, x);
+#endif
+	if (props & P_C11) checkC11(node, x);
+}
+
+// ---- C11: capacity alphabets - excess is rejected without corrupting state -------------------------------------------
+template <typename FSM>
+void Explorer<FSM>::checkC11(const Node& node, Exec& x) {
+	const Op& op = x.step.op;
+	++compared;
+	if (op.type == OP_BURST && (int) op.n > VT_COUNTS.compo) {
+		// the state after an over-full burst equals the state after the accepted prefix
+		Op ref = op; ref.n = (uint8_t) VT_COUNTS.compo;
+		Exec y;
+		Exec* saved = cur; const unsigned sp = props; props = 0;
+		run(node, Step{ref, {}}, y);
+		props = sp; cur = saved; --transitions;
+		++counters["c11_overfull_bursts"];
+		if (y.keyAfter != x.keyAfter || y.after.active != x.after.active || y.after.resumable != x.after.resumable)
+			violation("C11", "overflow/burst-changes-outcome", op.text() + ": the outcome (" + x.keyAfter + ") differs from the outcome of the first " + str(VT_COUNTS.compo) + " requests alone (" + y.keyAfter + "): excess requests were not simply rejected", x);
+	}
+#if VT_PLANS
+	if (op.type == OP_PLAN_FLOOD) {
+		int total = 0, mine = 0;
+		for (int r = 0; r < VT_COUNTS.regions; ++r) total += (int) x.after.plans[r].size();
+		int before = 0;
+		for (int r = 0; r < VT_COUNTS.regions; ++r) before += (int) x.before.plans[r].size();
+		mine = total - before;
+		const int room = (int) FSM::Instance::TASK_CAPACITY - before;
+		int accepted = -1;
+		for (size_t i = x.stepBegin; i < x.stepEnd; ++i) if (x.trace[i].meth == E_PLAN_APPEND) accepted = x.trace[i].c;
+		++counters["c11_plan_floods"];
+		if (accepted != std::min((int) op.n, room) || mine != accepted)
+			violation("C11", "overflow/plan-append", op.text() + ": " + str(accepted) + " appends reported success, " + str(mine) + " tasks were stored, capacity left was " + str(room), x);
+	}
 #endif
 }
 
@@ -939,7 +975,26 @@ void Explorer<FSM>::checkC02(const Node& node, Exec& x) {
 	}
 }
 
-template <typename FSM> void Explorer<FSM>::extraOps(const Node&, std::vector<Op>&) const {}
+template <typename FSM> void Explorer<FSM>::extraOps(const Node& n, std::vector<Op>& ops) const {
+	if (!(props & P_C11) || !n.activated) return;
+	const int cap = VT_COUNTS.compo;
+	// bursts of external requests around and beyond the queue capacity
+	for (int q : {cap, cap + 1, cap + 2, 2 * cap})
+		for (int kind : {(int) T_CHANGE, (int) T_RESTART, (int) T_SCHEDULE})
+			for (int base : {1, N / 2}) { Op o; o.type = OP_BURST; o.n = (uint8_t) q; o.r[0] = Req{(int8_t) kind, (int16_t) base}; ops.push_back(o); }
+	{ Op o; o.type = OP_FLOOD_UPDATE; ops.push_back(o); }
+	// scheduling the root is a call with a valid identifier
+	{ Op o; o.type = OP_IMMEDIATE; o.n = 1; o.r[0] = Req{(int8_t) T_SCHEDULE, 0}; ops.push_back(o); }
+#if VT_PLANS
+	const int tcap = (int) FSM::Instance::TASK_CAPACITY;
+	for (int r = 0; r < VT_COUNTS.regions && r < 2; ++r)
+		for (int k : {tcap, tcap + 1, tcap + 3}) { if (k > 250) continue; Op o; o.type = OP_PLAN_FLOOD; o.arg = (int16_t) r; o.n = (uint8_t) k; ops.push_back(o); }
+#endif
+#if VT_HISTORY
+	const int hcap = cap * VT_SUBLIMIT;
+	for (int k : {hcap, hcap + 1, 4 * hcap}) { if (k > 250) continue; Op o; o.type = OP_REPLAY_FLOOD; o.n = (uint8_t) k; ops.push_back(o); }
+#endif
+}
 
 // ---- C09: history records what was applied; replaying it reproduces the state -----------------------------------
 #if VT_HISTORY
@@ -1070,6 +1125,41 @@ void Explorer<FSM>::checkC09(Runner& r, Exec& x) {
 
 // ---- C10 (a)(c): per reachable state - storage pre-fill independence and copies -------------------------------------
 template <typename FSM> void Explorer<FSM>::perState(const Node& n) {
+#if VT_UTILITY && !VT_USE_SCRIPT_RNG
+	if ((props & P_C11) && n.activated && states <= 12) {
+		// a copy is used after its original is gone (built-in generator). Touching freed memory is destructive, so the
+		// experiment runs in a forked child; the child reports the number of sanitizer reports through its exit status.
+		fflush(stdout); fflush(stderr);
+		int fds[2] = {-1, -1};
+		if (pipe(fds) != 0) return;
+		const pid_t pid = fork();
+		if (pid == 0) {
+			close(fds[0]);
+			Runner r;
+			r.env.monitoring = false;
+			for (const Step& s : n.hist) r.apply(s, opt.fill);
+			void* mem2 = aligned_alloc(alignof(typename E::Instance) < sizeof(void*) ? sizeof(void*) : alignof(typename E::Instance), Runner::memSize());
+			auto* copy = new (mem2) typename E::Instance(*r.fsm);
+			r.destroy();  // original destroyed, its storage freed
+			const long san0 = sanErrors();
+			copy->immediateRandomize((hfsm2::StateID) 0);
+			copy->update();
+			// only a child that got here without any sanitizer report says 'K' (a deadly signal ends it before)
+			if (sanErrors() == san0) { const char k = 'K'; if (write(fds[1], &k, 1) != 1) _exit(4); }
+			_exit(0);
+		}
+		close(fds[1]);
+		char got = 0;
+		const bool clean = read(fds[0], &got, 1) == 1 && got == 'K';
+		close(fds[0]);
+		int status = 0;
+		waitpid(pid, &status, 0);
+		++compared;
+		++counters["c11_copy_after_destroy"];
+		if (!clean)
+			E::R().violation("C11", "sanitizer/copy-used-after-original-destroyed", "a copy of an instance with the built-in generator touches freed memory once the original is destroyed (it references the original's generator)", n.hist);
+	}
+#endif
 #if VT_PLANS
 	if ((props & (P_C06 | P_C14)) && n.activated && n.key.find("|P") == std::string::npos && n.key.find("|M") == std::string::npos && opt.mode == "plans") planScenarios(n);
 #endif
